@@ -108,10 +108,14 @@ def run(ctx):
                 "non-trivial when the final request succeeds from an environment in which something is set up; "
                 "distinct = distinct (world, requests)")
     ctx.trusted_base = common.COMMON_TRUSTED + [
-        "the version resolver is outside Model/Setup.v: the decisions of the real resolver (one per forward call of "
-        "Eups.setup, captured by a spy) are fed to the model; C03 models the resolver",
+        "two model runs per request: Model/Setup.v fed with the decisions of the real resolver (one per forward call of "
+        "Eups.setup, captured by a spy), and the composed model Model/SetupFull.v (setup + the resolver of C03, "
+        "alreadySetupProducts, per-line VRO with keep) fed with NO decisions; compared: success, environment, aliases, "
+        "decisions",
         "table files enter the model as the actions the real parser derives from them (C11 models the parser)"]
     ctx.assumptions = ["one stack, one flavor, declared products only (no setup -r, no --force)",
+                       "keep_retains: WF2, Eups.keep set and keep at the head of the VRO (what --keep does), a non-empty "
+                       "flavor list; composed model: dependency lines without -t / --vro / -k",
                        "WF world of Proofs/SetupFrame.v for the theorems: path values non-empty, delimiter-free, "
                        "dollar-free; one delimiter per path variable; path, envSet and SETUP_/_DIR variables disjoint"]
     ctx.check_theorems()
